@@ -43,6 +43,58 @@ def _eval(e, env):
     raise KeyError(norm(e))
 
 
+def letter_cut(repo):
+    """How _parse_obj_id_matcher separates the id digits from the incarnation letters.
+    -> {'accepted': code points (< 0x250) taken for letters, 'maximal': the cut is before the maximal run of trailing letters,
+        'form': 'loop' | 'rstrip', 'site': location, 'why': text}.  AnalysisError when neither form is recognised."""
+    import string as _string
+    from .common import scope_nodes
+    from ..peval import fold, Unfoldable
+    f_poi = repo.func('matcher._parse_obj_id_matcher')
+    STR = {'string.ascii_letters': _string.ascii_letters, 'string.ascii_lowercase': _string.ascii_lowercase, 'string.ascii_uppercase': _string.ascii_uppercase,
+           'string.digits': _string.digits}
+    # form B: text.rstrip(<letters>)
+    for g_, n in scope_nodes(repo, f_poi):
+        if isinstance(n, ast.Call) and isinstance(n.func, ast.Attribute) and n.func.attr == 'rstrip' and len(n.args) == 1 and norm(n.func.value) == f_poi.params()[0]:
+            try:
+                letters = fold(n.args[0], {}, STR)
+            except Unfoldable as ex_:
+                raise AnalysisError('C14.1: cannot fold the letter set of %s: %s' % (norm(n), ex_))
+            if not isinstance(letters, str):
+                raise AnalysisError('C14.1: rstrip argument is not a string constant')
+            return {'accepted': {ord(c) for c in letters if ord(c) < 0x250} | {ord(c) for c in letters}, 'maximal': True, 'form': 'rstrip', 'site': g_.loc(n),
+                    'why': 'str.rstrip removes the maximal run of trailing characters of its set', 'rstrip': norm(n)}
+    # form A: a loop stepping back over the text while a letter test holds
+    loops = [(g_, n) for g_, n in scope_nodes(repo, f_poi) if isinstance(n, ast.While)]
+    if len(loops) != 1:
+        raise AnalysisError('C14.1: the id/letters cut of _parse_obj_id_matcher is neither an rstrip() nor one backwards loop')
+    g_, lp = loops[0]
+    lm = re.search(r'(\w+)\(text\[(\w+) - 1\]\)', norm(lp.test))
+    if not lm:
+        raise AnalysisError('C14.1: the cut loop does not test the character before the cursor: %s' % norm(lp.test))
+    r_ = repo.lookup(g_.module, lm.group(1))
+    if not (r_ and r_[0] == 'func'):
+        raise AnalysisError('C14.1: letter test %s is not a function of the repository' % lm.group(1))
+    f_isl = r_[1]
+    rets = [n for n in f_isl.body_nodes() if isinstance(n, ast.Return)]
+    vdef = {n.targets[0].id: n.value for n in f_isl.body_nodes() if isinstance(n, ast.Assign) and isinstance(n.targets[0], ast.Name)}
+    if len(rets) != 1:
+        raise AnalysisError('C14.1: %s is no longer a single return expression' % f_isl.name)
+    accepted = set()
+    for ch in range(0, 0x250):
+        env = {f_isl.params()[0]: chr(ch)}
+        try:
+            for k, v in vdef.items():
+                env[k] = fold(v, env, STR)
+            if fold(rets[0].value, env, STR):
+                accepted.add(ch)
+        except Unfoldable as ex_:
+            raise AnalysisError('C14.1: cannot evaluate %s: %s' % (f_isl.name, ex_))
+    cur = lm.group(2)
+    maximal = re.match(r'^%s > 0 and %s\(' % (cur, lm.group(1)), norm(lp.test)) is not None and len(lp.body) == 1 and norm(lp.body[0]) in ('%s -= 1' % cur, '%s = %s - 1' % (cur, cur))
+    return {'accepted': accepted, 'maximal': maximal, 'form': 'loop', 'site': f_isl.loc(), 'why': 'the cut loop is `while %s`' % norm(lp.test), 'cursor': cur}
+
+
 def run(ctx):
     repo = ctx.repo
     ctx.decided = ['C14.1 lexing agreement between displayed letters and the matcher\'s letter test', 'C14.2 same (id, generation) pair on both sides, shared radix/alphabet constants',
@@ -52,7 +104,6 @@ def run(ctx):
                      'selection semantics of the bare-object matcher (C05)']
     f_enc = repo.func('letter_id_generator.number_to_letter_id')
     f_dec = repo.func('letter_id_generator.letter_id_to_number')
-    f_isl = repo.func('matcher._is_letter')
     # ---- C14.1 ------------------------------------------------------------------------------------------
     check_zero_is_a_value(ctx, 'C14.1', 'incarnation 0 (letter a), position 0', lambda f: f.module.name in ('core.letter_id_generator', 'core.wl.object', 'core.matcher'), floor=20)
     # letters the encoder can produce: chr(R + base) with R a remainder modulo M (x % M or divmod(x, M)[1]) and
@@ -87,26 +138,14 @@ def run(ctx):
         ctx.check(got == want, 'C14.1', 'encoder:alphabet:%s' % ('caps' if caps else 'lower'), f_enc.loc(), 'the encoder produces exactly the 26 letters %s..%s' % (chr(min(want)), chr(max(want))),
                   'the encoder can produce characters %s..%s (%d of them)' % (chr(min(got)) if got else '?', chr(max(got)) if got else '?', len(got)))
     # letters the matcher's lexer accepts
-    rets = [n for n in f_isl.body_nodes() if isinstance(n, ast.Return)]
-    vdef = {n.targets[0].id: n.value for n in f_isl.body_nodes() if isinstance(n, ast.Assign) and isinstance(n.targets[0], ast.Name)}
-    pname = f_isl.params()[0]
-    accepted = set()
-    if len(rets) != 1:
-        raise AnalysisError('C14.1: _is_letter is no longer a single return expression')
-    for ch in range(0, 256):
-        env = {pname: chr(ch)}
-        try:
-            for k, v in vdef.items():
-                env[k] = _eval(v, env)
-            if _eval(rets[0].value, env):
-                accepted.add(ch)
-        except KeyError as ex_:
-            raise AnalysisError('C14.1: cannot evaluate _is_letter: %s' % ex_)
+    cut = letter_cut(repo)
+    accepted = cut['accepted']
+    site_isl = cut['site']
     lower = produced.get(False, set())
-    ctx.check(lower <= accepted and produced.get(True, set()) <= accepted, 'C14.1', 'lexer:accepts-produced-letters', f_isl.loc(), 'every letter a label can contain is accepted by the matcher\'s letter test',
+    ctx.check(lower <= accepted and produced.get(True, set()) <= accepted, 'C14.1', 'lexer:accepts-produced-letters', site_isl, 'every letter a label can contain is accepted by the matcher\'s letter test',
               'letters %s appear in labels but are not accepted by _is_letter' % sorted(chr(c) for c in (lower | produced.get(True, set())) - accepted)[:5])
     digits = set(range(ord('0'), ord('9') + 1))
-    ctx.check(not (digits & accepted), 'C14.1', 'lexer:digits-are-not-letters', f_isl.loc(), 'digits of the id are never taken for incarnation letters',
+    ctx.check(not (digits & accepted), 'C14.1', 'lexer:digits-are-not-letters', site_isl, 'digits of the id are never taken for incarnation letters',
               'digits %s are accepted as letters: the id part of a label would be swallowed' % sorted(chr(c) for c in digits & accepted))
     f_poi = repo.func('matcher._parse_obj_id_matcher')
     pp = paths_of(repo, f_poi, while_unroll=1)
@@ -119,6 +158,15 @@ def run(ctx):
             a0, a2 = norm(rv.args[0]), norm(rv.args[2])
             m0 = re.match(r'^_parse_int_matcher\(text(\[:(.+)\])?\)$', a0)
             m2 = re.match(r'^_parse_generation_matcher\(text\[(.+):\]\)$', a2)
+            if cut['form'] == 'rstrip':
+                # id = text.rstrip(L), letters = text[len(text.rstrip(L)):]
+                rs = re.escape(cut['rstrip'])
+                m0 = re.match(r'^_parse_int_matcher\((%s)\)$' % rs, a0)
+                if m2:
+                    nsplit += 1
+                    ctx.check(bool(m0) and m2.group(1) == 'len(%s)' % cut['rstrip'], 'C14.1', 'split:same-cut', f_poi.loc(), 'the label is cut at one position into id digits and incarnation letters',
+                              'label is cut as %s / %s' % (a0, a2))
+                continue
             if m0 and m2 and m0.group(2) is None:
                 m0 = None
             if m2:
@@ -126,13 +174,10 @@ def run(ctx):
                 ctx.check(bool(m0) and m0.group(2) == m2.group(1), 'C14.1', 'split:same-cut', f_poi.loc(), 'the label is cut at one position into id digits and incarnation letters',
                           'label is cut as %s / %s' % (a0, a2))
     ctx.floor('C14.1', nsplit, 1, 'id+letters split')
-    from .common import scope_nodes
-    loops = [n for g_, n in scope_nodes(repo, f_poi) if isinstance(n, ast.While)]
-    lm = re.search(r'_is_letter\(text\[(\w+) - 1\]\)', norm(loops[0].test)) if len(loops) == 1 else None
-    ctx.check(bool(lm) and re.match(r'^%s > 0 and _is_letter' % lm.group(1), norm(loops[0].test)) is not None and norm(loops[0].body[0]) == '%s -= 1' % lm.group(1), 'C14.1', 'split:trailing-letters', f_poi.loc(),
-              'the cut is placed before the maximal run of trailing letters', 'the cut loop is %s' % (norm(loops[0].test) if loops else None))
+    ctx.check(cut['maximal'], 'C14.1', 'split:trailing-letters', f_poi.loc(), 'the cut is placed before the maximal run of trailing letters (%s)' % cut['why'], 'the cut is not maximal: %s' % cut['why'])
 
     # ---- C14.2 ------------------------------------------------------------------------------------------
+    from .common import scope_nodes
     def cval(x):
         if isinstance(x, ast.Constant):
             return x.value
@@ -147,7 +192,7 @@ def run(ctx):
 
     def radix_consts(f):
         out = set()
-        for n in f.body_nodes():
+        for g__, n in scope_nodes(repo, f):
             if isinstance(n, ast.Call) and norm(n.func) == 'divmod' and len(n.args) == 2 and cval(n.args[1]) is not None:
                 out.add(cval(n.args[1]))
             for fld in ('right', 'value'):
@@ -166,7 +211,7 @@ def run(ctx):
         return out
     re_, rd = radix_consts(f_enc), radix_consts(f_dec)
     ctx.check(re_ == {26} and rd == {26}, 'C14.2', 'radix:agree', f_enc.loc(), 'encoder and decoder use the same radix 26', 'encoder radix constants %s, decoder %s' % (sorted(re_), sorted(rd)))
-    dec_base = [n for n in f_dec.body_nodes() if isinstance(n, ast.BinOp) and isinstance(n.op, ast.Sub) and norm(n.left).startswith('ord(')]
+    dec_base = [n for g__, n in scope_nodes(repo, f_dec) if isinstance(n, ast.BinOp) and isinstance(n.op, ast.Sub) and norm(n.left).startswith('ord(')]
     ctx.check(len(dec_base) == 1 and norm(dec_base[0].right) == "ord('a')" and any(isinstance(n, ast.Call) and norm(n.func).endswith('.lower') for n in f_dec.body_nodes()), 'C14.2', 'alphabet:decoder-base', f_dec.loc(),
               "the decoder lower-cases and subtracts ord('a')", 'decoder base is %s' % [norm(n) for n in dec_base])
     f_oim = repo.func('ObjectIdMatcher.matches')
@@ -190,7 +235,8 @@ def run(ctx):
     for p in paths_of(repo, f_ids):
         none = [v for a, v in p.decisions if a.text == 'self.generation is None']
         if none and not none[0] and p.outcome[0] == 'return':
-            t = norm(p.outcome[1])
+            from .common import dtext
+            t = dtext(p.outcome[1])
             ctx.check("'@' + str(self.id) + number_to_letter_id(self.generation, False)" in t.replace('caps=False', 'False'), 'C14.2', 'label:id-then-letters', f_ids.loc(), 'the label is id digits followed by number_to_letter_id(generation)', 'label is %s' % t[:120])
     imp = repo.lookup(repo.modules['core.matcher'], 'letter_id_to_number')
     imp2 = repo.lookup(repo.modules['core.wl.object'], 'number_to_letter_id')
